@@ -231,7 +231,7 @@ pub fn run(p: &Params) -> Outcome {
     // thorough: every field of up to 32 bits is enumerated completely in the release profile;
     // the overflow-checked profile enumerates up to 28 bits and samples above (2^30 each)
     let exhaustive_max = if p.thorough {
-        if p.profile == "relchk" {
+        if p.profile == "relchk" || p.profile == "nostd" {
             28
         } else {
             32
